@@ -33,6 +33,17 @@ class Sess(SessionStream):
     quick_cases = 450
     quick_seconds = 30
 
+    def oracle(self, case, obs):
+        # an exception that leaves the body of a `with session.prepare_attachment(..)` block (thrown into the context manager,
+        # file written or not) must come out of the block: swallowed, the code after the block carries on and the unit that
+        # raised is reported as if nothing had happened
+        if obs.get("error") == "abortSwallowed":
+            op = case["ops"][obs["accepted"]] if obs.get("accepted", 0) < len(case["ops"]) else None
+            return [C.Failure("C02/uncaught-exception-swallowed/prepare_attachment",
+                              "the exception raised in the body of a prepare_attachment block did not leave the block (op %d: %r)"
+                              % (obs.get("accepted", -1), op))]
+        return []
+
 
 class Run(PropRunStream):
     name = "C02.run"
